@@ -21,13 +21,13 @@ impl<C: tracing::Collect> Subscribe<C> for Rec {
 
 const LEVELS: [&str; 6] = ["off", "error", "warn", "info", "debug", "trace"];
 
-enum V { U(u64), I(i64), B(bool), S(String) }
+enum V { U(u64), I(i64), B(bool), F(f64), S(String) }
 fn parse_vals(t: &str) -> Vec<(String, V)> {
     if t == "-" { return Vec::new(); }
     t.split('+').filter_map(|f| {
         let (n, v) = f.split_once('=')?;
         let v = if v == "true" { V::B(true) } else if v == "false" { V::B(false) }
-            else if let Ok(u) = v.parse::<u64>() { V::U(u) } else if let Ok(i) = v.parse::<i64>() { V::I(i) } else { V::S(v.to_string()) };
+            else if let Ok(u) = v.parse::<u64>() { V::U(u) } else if let Ok(i) = v.parse::<i64>() { V::I(i) } else if v.contains('.') && v.parse::<f64>().is_ok() { V::F(v.parse::<f64>().unwrap()) } else { V::S(v.to_string()) };
         Some((n.to_string(), v))
     }).collect()
 }
@@ -37,7 +37,7 @@ fn with_values<R>(m: &'static Metadata<'static>, vals: &[(String, V)], f: impl F
     let fs = m.fields();
     let pairs: Vec<(tracing_core::field::Field, &dyn Value)> = vals.iter().filter_map(|(n, v)| {
         let field = fs.field(n.as_str())?;
-        let v: &dyn Value = match v { V::U(u) => u, V::I(i) => i, V::B(b) => b, V::S(s) => s };
+        let v: &dyn Value = match v { V::U(u) => u, V::I(i) => i, V::B(b) => b, V::F(x) => x, V::S(s) => s };
         Some((field, v))
     }).collect();
     match pairs.len() {
